@@ -101,7 +101,13 @@ func MakeReceptorSAN(dnsNames []string, ipAddresses []net.IP, nodeIDs []string) 
 		if err != nil {
 			return nil, err
 		}
-		rawValues = append(rawValues, asn1.RawValue{Tag: 0, Class: 2, IsCompound: true, Bytes: asnOtherName[2:]})
+		// Strip the outer SEQUENCE header, whose length depends on the content length.
+		var otherName asn1.RawValue
+		_, err = asn1.Unmarshal(asnOtherName, &otherName)
+		if err != nil {
+			return nil, err
+		}
+		rawValues = append(rawValues, asn1.RawValue{Tag: 0, Class: 2, IsCompound: true, Bytes: otherName.Bytes})
 	}
 	sanBytes, err := asn1.Marshal(rawValues)
 	if err != nil {
